@@ -3413,6 +3413,10 @@ impl LineBuf {
 			Verb::Delete |
 			Verb::Yank |
 			Verb::Change => {
+				if matches!(motion, MotionKind::Null) {
+					// the motion failed: nothing is taken, and the register keeps what it holds
+					return Ok(())
+				}
 				// where the text that is taken starts (the range cannot be asked for once the text is gone)
 				let range_start = self.operator_range(&verb, &motion).map(|(start,_,_)| start);
 				let content = self.get_register_content(&verb, &motion);
